@@ -6,8 +6,9 @@ package main
 // the dynamic cross-check on the real functions, and the source of replays:
 //
 //	c19.secret <fn> <k>   seed the global math/rand with k, draw; seed again with k, draw: the values must
-//	                      differ. Also: the value must not be the output of a math/rand generator
-//	                      seeded with the wall clock at the time of the call (seed recovered by search).
+//	                      differ. 16 draws must be pairwise different. The value must not be the output
+//	                      of a math/rand generator seeded with the wall clock at the time of the call
+//	                      (seed recovered by search).
 //	c19.hs <k>            two real key exchanges (CreateConnection against a silent loopback peer) after
 //	                      identical seeding: the nonce of req_pq on the wire must differ.
 //	c19.reseed <fn> <k>   create a client (NewMTProto), then draw: the value must not be a function of
@@ -173,6 +174,19 @@ func c19Secret(op string, fn string, k int64) string {
 		c19Detail[op] = fmt.Sprintf("two calls after math/rand.Seed(%d) returned the same value %s…", k, hex.EncodeToString(x1[:8]))
 		return "predictable"
 	}
+	// a secret of 128 bits and more never repeats: any collision among a handful of draws means that
+	// the value has (almost) no entropy, whatever its source
+	if fn != "srp_a" {
+		seen := map[string]bool{string(x1): true, string(x2): true}
+		for i := 0; i < 14; i++ {
+			v := c19Draw(fn)
+			if seen[string(v)] {
+				c19Detail[op] = fmt.Sprintf("the value %s… occurred twice among 16 draws", hex.EncodeToString(v[:8]))
+				return "predictable"
+			}
+			seen[string(v)] = true
+		}
+	}
 	t0 := time.Now().UnixNano()
 	x := c19Draw(fn)
 	t1 := time.Now().UnixNano()
@@ -322,11 +336,29 @@ func c19XProc(op string, fn string) string {
 	if err != nil {
 		return "error:" + strings.ReplaceAll(err.Error(), " ", "_")
 	}
-	if bytes.Equal(a, b) {
-		c19Detail[op] = fmt.Sprintf("two fresh processes drew the same value %s…", hex.EncodeToString(a[:8]))
-		return "predictable"
+	// each child prints its first draws back to back; a value of one process showing up in the other
+	// means a fixed seed (same sequence) or a value without entropy
+	n := c19Width(fn)
+	for i := 0; i+n <= len(a); i += n {
+		for j := 0; j+n <= len(b); j += n {
+			if bytes.Equal(a[i:i+n], b[j:j+n]) {
+				c19Detail[op] = fmt.Sprintf("two fresh processes drew the same value %s… (draw %d of the first, draw %d of the second)",
+					hex.EncodeToString(a[i:i+8]), i/n+1, j/n+1)
+				return "predictable"
+			}
+		}
 	}
 	return "fresh"
+}
+
+func c19Width(fn string) int {
+	switch fn {
+	case "nonce128":
+		return 16
+	case "nonce256":
+		return 32
+	}
+	return 256
 }
 
 func c19IsFn(s string) bool {
@@ -420,7 +452,6 @@ func c19Gen(g *G) {
 	}
 }
 
-
 func c19Setup(g *G) {
 	c19Init()
 	c19Window = 20000
@@ -447,7 +478,15 @@ func init() {
 	register(&Prop{Name: "c19child", Gen: func(g *G) {}, Exec: func(op []string) string {
 		c19Init()
 		if len(op) == 2 && op[0] == "c19.child" && c19IsFn(op[1]) {
-			return hex.EncodeToString(c19Draw(op[1]))
+			n := 4
+			if op[1] == "srp_a" {
+				n = 1
+			}
+			var all []byte
+			for i := 0; i < n; i++ {
+				all = append(all, c19Draw(op[1])...)
+			}
+			return hex.EncodeToString(all)
 		}
 		return "bad-op"
 	}})
